@@ -91,7 +91,7 @@ def run(ctx):
     if not mc["exhaustive"]:
         raise vlib.Infra("TLC run not exhaustive")
     ctx.add_mc("Reputation exhaustive", mc)
-    sim = vlib.tlc_sim(ctx, "Reputation", "Reputation_sim.cfg", num=ctx.pick(40, 400), depth=40, timeout=1200)
+    sim = vlib.tlc_sim(ctx, "Reputation", "Reputation_sim.cfg", num=ctx.pick(40, 120), depth=40, timeout=1200)
     behs = sim["behaviours"]
     ctx.cov["evaluations"] = len(behs)
     ctx.cov["rule"] = ("behaviours = TLC -simulate runs of Reputation.tla GenNext (40 steps: relay payments of 4 providers with "
